@@ -270,7 +270,14 @@ pub struct RunOut {
 pub fn run_one(f: ScenarioFn, cfg: &Cfg, mut ch: Choices, verbose: bool) -> RunOut {
     QUIET.with(|q| q.set(true));
     let mut ctx = Ctx { ch: &mut ch, log: Log::new(verbose), st: Stats::default(), cfg, case_hashes: vec![], builder_fp_wrong: None };
-    let r = catch_unwind(AssertUnwindSafe(|| f(&mut ctx)));
+    // buggify: in one run of eight (scenario `wire` decides for itself) a tracing subscriber that
+    // formats everything down to TRACE is installed for the whole run, so that #[instrument]
+    // arguments, `ret` values and every log statement of the library really get evaluated
+    let tracing_on = cfg.scenario != "wire" && !(cfg.scenario == "tcpstream" && cfg.profile == "lifetime") && ctx.ch.rare(1, if cfg.scenario == "agent" || cfg.scenario == "world" || cfg.scenario == "tcpstream" { 20 } else { 8 });
+    if tracing_on {
+        ctx.st.inc("probe.tracing_subscriber_installed");
+    }
+    let r = catch_unwind(AssertUnwindSafe(|| if tracing_on { crate::pipeline::with_subscriber(|| f(&mut ctx)) } else { f(&mut ctx) }));
     QUIET.with(|q| q.set(false));
     let mut harness_error = None;
     let result = match r {
